@@ -192,6 +192,10 @@ def run(ctx):
             out = worker(ctx, {"ops": ops})
             n += len(ops)
             for op, o in zip(ops, out):
+                if o and o[0] == "touched-sink":
+                    bad.append({"what": f"a writer used the caller's stream other than through write(): {o[1]} (the call ended: {o[2]})",
+                                "class": _codec.cls_name(classes, i), "value": str(op[2])[:300]})
+                    continue
                 faulted = len(op) > 3 and op[3] is not None
                 if op[0] == "w" and bad_vals[i] is not None and op[2] == to_json(bad_vals[i]):
                     continue                      # expected to fail; what matters is what follows
